@@ -187,6 +187,29 @@ def apply_body_rules(rw, src, f, body_open, body_close, loops, cfg):
                 rw.replace(q + 1, q + 2, ".vx_set(", "R22-index-assign")
                 rw.replace(cl, cl + 2, ",", "R22-index-assign")
                 rw.insert(e, ")", "R22-index-assign")
+    # R22d: `m[(i, j)] *= e;` on a named shim matrix -> `m.vx_mul_at((i, j), e);`
+    for name in f.opts.get("index_mul_assign", ()):
+        for q in range(body_open + 1, body_close):
+            if toks[q].kind == "ident" and toks[q].text == name and toks[q + 1].text == "[" and toks[q - 1].text != ".":
+                cl = src.pairs[q + 1]
+                if toks[cl + 1].text != "*=":
+                    continue
+                e = cl + 2
+                while toks[e].text != ";":
+                    e = src.pairs[e] + 1 if toks[e].text in ("(", "[", "{") else e + 1
+                rw.replace(q + 1, q + 2, ".vx_mul_at(", "R22-index-mul-assign")
+                rw.replace(cl, cl + 2, ",", "R22-index-mul-assign")
+                rw.insert(e, ")", "R22-index-mul-assign")
+    # R29b: `&a - &b` with a, b plain identifiers naming shim vectors -> `a.vx_sub_ref(&b)` (this Verus build fails internally on user
+    #       operator instances whose operands are references)
+    names = f.opts.get("ref_sub", ())
+    if names:
+        for q in range(body_open + 1, body_close - 4):
+            if (toks[q].text == "&" and toks[q + 1].kind == "ident" and toks[q + 1].text in names and toks[q + 2].text == "-"
+                    and toks[q + 3].text == "&" and toks[q + 4].kind == "ident" and toks[q + 4].text in names
+                    and toks[q - 1].text in ("=", "(", ",", "{", ";", "return")):
+                rw.replace(q, q + 4, toks[q + 1].text + ".vx_sub_ref(&", "R29-ref-operator-as-call")
+                rw.insert_after(q + 4, ")", "R29-ref-operator-as-call")
     # R22b: `v[i] += e;` / `v[i] -= e;` / `v[i]` (read) on a named shim vector -> `v.vx_add_at(i, e);` / `v.vx_sub_at(i, e);` / `v.vx_at(i)`
     for name in f.opts.get("index_vector", ()):
         for q in range(body_open + 1, body_close):
